@@ -20,7 +20,7 @@ gen_overlay() {
 }
 build_variant() {
   local variant="$1" name="$2"
-  local out="$VERIF_ROOT/.build/bin/$variant/$name"
+  local out="${VERIF_BIN_ROOT:-$VERIF_ROOT/.build/bin}/$variant/$name"
   mkdir -p "$(dirname "$out")"
   local mf; mf="$(modfile_for_repo)"
   local flags="-tags verif"
